@@ -54,9 +54,24 @@ def _eps(*ts):
     return lo
 
 
+def _parts(op, a, b):
+    """Component-wise cancellation scales of a bilinear complex operation op(a, b): each component of the result is a sum of
+    two real products and is accurate relative to ITS OWN terms (what native complex arithmetic gives) - a real part of
+    1e8 does not excuse an error of 1e-8 in an imaginary part of 1e-8."""
+    ar, ai, br, bi = np.abs(a.real), np.abs(a.imag), np.abs(b.real), np.abs(b.imag)
+    return op(ar, br) + op(ai, bi), op(ar, bi) + op(ai, br)
+
+
 def _cmp(name, got, want, scale, eps, what=""):
     got = np.asarray(got)
     want = np.asarray(want)
+    if isinstance(scale, tuple):  # (scale of the real part, scale of the imaginary part)
+        if got.shape != want.shape:
+            REC.alert(name, f"{what} shape {got.shape} != expected {want.shape}")
+            return
+        _cmp(name, got.real, want.real, scale[0], eps, (what + " real part").strip())
+        _cmp(name, got.imag, want.imag, scale[1], eps, (what + " imaginary part").strip())
+        return
     if got.shape != want.shape:
         REC.alert(name, f"{what} shape {got.shape} != expected {want.shape}")
         return
@@ -117,39 +132,39 @@ def install_cplx(cplx):
     def post_scalar_mult(x, y, out, result):
         a, b = dec(x), dec(y)
         _rank_key("scalar_mult", x, y)
-        _cmp("cplx.scalar_mult", dec(result), a * b, np.abs(a) * np.abs(b), _eps(x, y))
+        _cmp("cplx.scalar_mult", dec(result), a * b, _parts(np.multiply, a, b), _eps(x, y))
         if out is not None and result is not out:
             REC.alert("cplx.scalar_mult", "out= buffer given but a different tensor returned")
 
     def post_matmul(x, y, result):
         a, b = dec(x), dec(y)
         _rank_key("matmul", x, y)
-        _cmp("cplx.matmul", dec(result), a @ b, np.abs(a) @ np.abs(b), _eps(x, y))
+        _cmp("cplx.matmul", dec(result), a @ b, _parts(np.matmul, a, b), _eps(x, y))
 
     def post_inner_prod(x, y, result):
         a, b = dec(x), dec(y)
         _rank_key("inner_prod", x, y)
         if a.ndim == 1:
-            _cmp("cplx.inner_prod", dec(result), np.vdot(a, b), np.abs(a) @ np.abs(b), _eps(x, y))
+            _cmp("cplx.inner_prod", dec(result), np.vdot(a, b), _parts(np.matmul, a, b), _eps(x, y))
         else:
-            _cmp("cplx.inner_prod", dec(result), np.conj(a) * b, np.abs(a) * np.abs(b), _eps(x, y))
+            _cmp("cplx.inner_prod", dec(result), np.conj(a) * b, _parts(np.multiply, a, b), _eps(x, y))
 
     def post_outer_prod(x, y, result):
         a, b = dec(x), dec(y)
-        _cmp("cplx.outer_prod", dec(result), np.outer(a, np.conj(b)), np.outer(np.abs(a), np.abs(b)), _eps(x, y))
+        _cmp("cplx.outer_prod", dec(result), np.outer(a, np.conj(b)), _parts(np.outer, a, b), _eps(x, y))
 
     def post_einsum(equation, a, b, real_part, imag_part, result):
         A, B = dec(a), dec(b)
         _rank_key("einsum:" + equation, a, b)
         want = np.einsum(equation, A, B)
-        scale = np.einsum(equation, np.abs(A), np.abs(B))
+        scale = _parts(lambda p_, q_: np.einsum(equation, p_, q_), A, B)
         e = _eps(a, b)
         if real_part and imag_part:
             _cmp("cplx.einsum", dec(result), want, scale, e)
         elif real_part:
-            _cmp("cplx.einsum", result.detach().numpy(), want.real, scale, e, "real part")
+            _cmp("cplx.einsum", result.detach().numpy(), want.real, scale[0], e, "real part")
         elif imag_part:
-            _cmp("cplx.einsum", result.detach().numpy(), want.imag, scale, e, "imag part")
+            _cmp("cplx.einsum", result.detach().numpy(), want.imag, scale[1], e, "imag part")
         elif result is not None:
             REC.alert("cplx.einsum", "neither part requested but a value was returned")
 
@@ -164,7 +179,7 @@ def install_cplx(cplx):
 
     def post_elementwise_mult(x, y, result):
         a, b = dec(x), dec(y)
-        _cmp("cplx.elementwise_mult", dec(result), a * b, np.abs(a) * np.abs(b), _eps(x, y))
+        _cmp("cplx.elementwise_mult", dec(result), a * b, _parts(np.multiply, a, b), _eps(x, y))
 
     def post_elementwise_division(x, y, result):
         a, b = dec(x), dec(y)
@@ -178,7 +193,7 @@ def install_cplx(cplx):
 
     def post_kronecker_prod(x, y, result):
         a, b = dec(x), dec(y)
-        _cmp("cplx.kronecker_prod", dec(result), np.kron(a, b), np.kron(np.abs(a), np.abs(b)), _eps(x, y))
+        _cmp("cplx.kronecker_prod", dec(result), np.kron(a, b), _parts(np.kron, a, b), _eps(x, y))
 
     def post_sigmoid(x, y, result):
         z = x.detach().numpy().astype(np.float64) + 1j * y.detach().numpy().astype(np.float64)
